@@ -175,9 +175,9 @@ func runProperty(p *Prop) (rc int) {
 	if c.Tier == "thorough" && !*flagNoMut && *flagOverlay == "" && len(viol) == 0 && len(und) == 0 {
 		mut = runMutants(p)
 		for _, m := range mut.Results {
-			if m.Outcome == "missed" {
+			if m.Outcome == "missed" || m.Outcome == "false-alarm-on-equivalent" {
 				o := &Obligation{Rule: "selftest", Construct: m.Name, Status: stUndecided,
-					Detail: "mutant not detected by the rules: " + m.Desc}
+					Detail: "self-test " + m.Outcome + ": " + m.Desc}
 				c.obs = append(c.obs, o)
 				und = append(und, o)
 			}
